@@ -68,6 +68,66 @@ SEEDS = {
            "a rejected new_change() while a file is open; the next write_meta()/write_diff() is wrongly refused"),
  'C13-c': ('C13', "DiffXFileSection.generate_stats() returns early when the diff object is the one analysed last time and 'stats' exists",
            "generate_stats(), then an edit that keeps the diff object (stats overwritten, diff_encoding / line_endings changed), then generate_stats() again"),
+ 'C04-c': ('C04', "writer drops a 'redundant' encoding= from a change/file header when it equals the parent's, finding the parent one stack level too low for files",
+           "main A, change overrides with B, a file explicitly declares A again, with A/B byte-incompatible for the content"),
+ 'C10-c': ('C10', "_read_header's blank-line loop became a tail call that forgets valid_sections; a header preceded by a blank line is only checked against the nine known ids",
+           "any out-of-order legal id with at least one blank line in front of it"),
+ 'C11-c': ('C11', "options regex rewritten as (?:pair(?:, |$))+ and walked with finditer(): a trailing ', ' after the last pair is accepted",
+           "at least one well-formed option followed by exactly ', ' at end of line"),
+ 'C12-c': ('C12', "known options looked up through a helper that ignores case and '-' vs '_'",
+           "an unknown look-alike key (Length, INDENT, line-endings, Encoding) on a header lacking the real option or placed before it"),
+ 'C15-c': ('C15', "strip_bom falls back to testing all BOMs in order; BOM_UTF16_LE is a prefix of BOM_UTF32_LE",
+           "the BOM-emitting UTF-32 codec spelled other than exactly 'utf-32'"),
+ 'C16-c': ('C16', "keep_ends=True path rewritten as a find() loop with 'while i > 0'",
+           "data that starts with the newline sequence"),
+ 'C17-c': ('C17', "_read_until drops 'blank lines' at the front of a read-ahead chunk without checking that nothing was accumulated yet",
+           "a header whose length before its newline is an exact non-zero multiple of the block size"),
+ 'C18-c': ('C18', "DOM loader assigns section.options = options or section.default_options (class-level dict handed out uncopied)",
+           "a parsed content section whose header carries only length=, then an option set on it"),
+ 'C19-c': ('C19', "PreambleIndentOptionProperty.__set__ calls the parent (which stores) before rejecting negative values",
+           "assigning a negative int to preamble indent: rejected, but the tree keeps it"),
+ 'C20-c': ('C20', "header-options pattern gained '\\r?' outside every capture group",
+           "a header line ending in CRLF: the CR is dropped from the token stream"),
+ 'C01-d': ('C01', "reader reads content in 64 KiB blocks requesting min(length, block) instead of min(remaining, block)",
+           "a content section of at least 65537 bytes (not a multiple of 65536) followed by more data"),
+ 'C03-d': ('C03', "_read_content walks content in 8192-byte blocks and counts a line once per block it spans",
+           "a content section over 8192 bytes with a line straddling a block boundary, followed by another section: later line numbers too high"),
+ 'C05-d': ('C05', "DOM writer wraps the stream in a coalescing buffer; single writes >= 8192 bytes bypass it without flushing pending small writes",
+           "a tree with one content body of at least 8192 bytes"),
+ 'C06-d': ('C06', "reader reads large content in 8192-byte blocks, trims the last block but never rewinds the stream",
+           "a content section over 8192 bytes (not a multiple) followed by at least one more section"),
+ 'C08-d': ('C08', "_read_until stops after buffering 4096 bytes without a newline and returns eof=False; _read_header's assert then fails",
+           "a first non-blank line of at least 4096 bytes without newline (or newline beyond the 43rd block)"),
+ 'C09-d': ('C09', "fast path for diffs >= 64 KiB skips _prepare_content and with it the line_endings validation",
+           "write_diff(<65536+ bytes>, line_endings='bogus') is accepted"),
+ 'C13-d': ('C13', "diff transcoding done in 64 KiB slices cut at byte offsets",
+           "a diff over 64 KiB with diff_encoding set and a multi-byte character straddling a 64 KiB mark (or big-endian UTF-16 with BOM)"),
+ 'C17-d': ('C17', "_read_until gives up after 1024 buffered bytes, checked only at block boundaries",
+           "a header line of at least 1024 bytes; outcome depends on the block size"),
+ 'C18-d': ('C18', "generate_stats caches computed stats dicts in a module-level cache for diffs >= 4096 bytes and hands out the cached dict itself",
+           "two file sections (e.g. in two trees) holding equal diffs of at least 4096 bytes, generate_stats on both, then edit one"),
+ 'C19-d': ('C19', "OptionProperty.__set__ converts subclass values with data_type(value) after validation; str() honours an overridden __str__",
+           "assigning a (str, Enum) member equal to a valid choice stores 'LE.DOS'"),
+ 'C02-d': ('C02', "explicit line_endings recognised by identity ('is LineEndings.DOS') instead of equality",
+           "an explicit line_endings string that is equal but not identical to the constant (any value built at run time) and disagrees with the guess"),
+ 'C04-d': ('C04', "large-text fast path (> 8192 characters) encodes with the container's encoding, ignoring the section's own encoding=",
+           "a preamble or metadata section over 8192 characters that declares its own encoding"),
+ 'C07-d': ('C07', "content over 64 KiB read block-wise through a line generator whose unfinished tail is dropped at the end",
+           "a section of at least 65537 bytes cut mid-line at least 65536 bytes into its content (or with length 1+ too small)"),
+ 'C10-d': ('C10', "fast path for type=binary diffs ends in 'yield; continue', skipping the valid_sections update",
+           "a '...diff' carrying type=binary followed by another '...diff'"),
+ 'C11-d': ('C11', "option validation via bytes.translate tables built from range(ord('A'), ord('z') + 1)",
+           "a key (after its first character) or value containing one of [ \\ ] ^ `"),
+ 'C12-d': ('C12', "integer pre-check regex removed; every value goes through int(), which accepts PEP 515 digit grouping",
+           "an unknown option value of digit groups joined by single underscores (1_0, 2024_01_15)"),
+ 'C14-d': ('C14', "MalformedHunkError truncates the offending line to 1024 bytes (also in .line)",
+           "an offending line longer than 1024 bytes"),
+ 'C15-d': ('C15', "writer memoises the inherited encoded newline per writer and clears the memo only when a container sets its own encoding",
+           "a container with its own encoding followed by a sibling without one, both with inherited content sections"),
+ 'C16-d': ('C16', "keep_ends lines built with a printf format that embeds the newline bytes",
+           "a newline containing '%' (EBCDIC code pages encode LF as 0x25)"),
+ 'C20-d': ('C20', "lexer slices sections by the header's length= (bytes) while indexing decoded characters",
+           "a preamble or diff section containing a non-ASCII character that is not the last section"),
  'C14-c': ('C14', "num_processed_lines returns the line of the last finalised hunk instead of the loop position",
            "ignore_garbage=True with non-hunk lines after the last hunk, or no hunks at all"),
 }
